@@ -128,3 +128,29 @@ package bcl
 //@   loop 1 invariant below: forall k int :: 0 <= k && k < len(lc.lfs) ==> lc.lfs[k] < prefix + $iter
 //@   loop 1 invariant increasing: forall i int, j int :: 0 <= i && i < j && j < len(lc.lfs) ==> lc.lfs[i] < lc.lfs[j]
 //@   modifies lc.lfs
+
+// ---------------------------------------------------------------------------
+// oplogic.go, value.go (C01): operator semantics against the documented rules
+//
+//@ group C01
+//
+//@ func binopNumeric
+//@   requires numbers: is_number(a) && is_number(b)
+//@   requires arith_op: op == opEQ || op == opLT || op == opGT || op == opADD || op == opSUB || op == opMUL || op == opDIV
+//@   requires no_int_zero_divisor: !(op == opDIV && is_int(b) && as_int(b) == 0)
+//@   ensures documented_result: result == num_binop(op, a, b)
+//@   modifies nothing
+//
+//@ func unopNumeric
+//@   requires is_number(a) && op == opNEG
+//@   ensures negation: result == num_neg(a)
+//@   modifies nothing
+//
+//@ func binopString
+//@   requires op == opLT || op == opGT || op == opADD
+//@   ensures documented_result: result == str_binop(op, a, b)
+//@   modifies nothing
+//
+//@ func isFalsey
+//@   ensures falsey_set: result == falsey(v)
+//@   modifies nothing
